@@ -253,6 +253,12 @@ func runC16(r *Run, stratum string) *Violation {
 	F := &c16cache{name: "follower", ch: mk(c16BaseF, "follower"), id: idL, key: 701}
 
 	off := int64(1000 + g.Choose("off", 5000))
+	far := scen == "collected" && g.Choose("far", 3) == 0
+	if far {
+		// the follower is more than 10 MiB behind (offsets are just numbers): the branch of preSync that gives the
+		// local copy up and continues at the leader's offset
+		off += 11 << 20
+	}
 	snapN := int64(20 + g.Choose("snapn", 600))
 	logLen := int64(50 + g.Choose("loglen", 1500))
 	leaderSnap := scen != "collected"
@@ -277,6 +283,9 @@ func runC16(r *Run, stratum string) *Violation {
 	case "collected":
 		// the follower holds an older part of the stream that the leader no longer has
 		gap := int64(1 + g.Choose("gap", 500))
+		if far {
+			gap += 11<<20 - 600
+		}
 		flen := int64(1 + g.Choose("flen", 300))
 		c.fill(F, false, off-gap-flen, 0, flen)
 		c.stopWriter(F)
